@@ -134,26 +134,6 @@ func addHooks(rng *rand.Rand, fam *gen.Family) {
 	}
 }
 
-// dropSlotKind removes a kind from a generated family. The shared StatefulSet template has the
-// label value "y", which YAML reads as a boolean: such an object cannot be converted to the typed
-// StatefulSet, helm then treats it as unstructured (two-way merge) and a real API server would
-// reject it - not a workload this property is about.
-func dropSlotKind(fam *gen.Family, kind string) {
-	for v := range fam.Versions {
-		var keep []int
-		for _, sl := range fam.Versions[v].Slots {
-			if gen.SlotPool[sl].Kind != kind {
-				keep = append(keep, sl)
-			}
-		}
-		if len(keep) == 0 {
-			keep = []int{0}
-			fam.Versions[v].Content[0] = "c0"
-		}
-		fam.Versions[v].Slots = keep
-	}
-}
-
 func vs(slots []int, content string, hooks ...gen.HookSpec) gen.VersionSpec {
 	v := gen.VersionSpec{Slots: slots, Content: map[int]string{}, Keep: map[int]bool{}, DefK: "d" + content, Hooks: hooks}
 	for _, s := range slots {
@@ -215,7 +195,6 @@ func mkSetup(d caseData) setup {
 	} else {
 		rng := rand.New(rand.NewSource(d.HSeed))
 		s.fam = gen.NewFamily(rng, gen.FamilyOpts{Versions: 4, MaxSlots: 7})
-		dropSlotKind(&s.fam, "StatefulSet")
 		addHooks(rng, &s.fam)
 		vals := func() map[string]any {
 			if rng.Intn(3) == 0 {
